@@ -177,3 +177,104 @@ func VerifH_C19_clear_nil() {
 	ClearTimeout(nil)
 	ClearInterval(nil)
 }
+
+// VerifH_C19_cancel_from_callback: the callback itself cancels (or refreshes) its own timer
+// -- "poll until done, then stop" -- on its k-th run: the call returns, the callback runs
+// no more after a cancellation (exactly once more, one period later, per refresh of a
+// timeout), and no goroutine of the timer is left behind.
+func VerifH_C19_cancel_from_callback() {
+	verif.RunTimed(func() {
+		verif.RealTimers()
+		p := verif.Int64()
+		verif.Assume(p >= 1 && p <= 1<<40)
+		interval := verif.Bool()
+		k := 1 + verif.Choose(2)
+		act := verif.Choose(3) // Stop, Clear..., Refresh (timeouts only)
+		var calls []int64
+		returned := 0
+		var tm *Timer
+		cb := func() {
+			calls = append(calls, verif.Now())
+			if len(calls) != k {
+				return
+			}
+			switch act {
+			case 0:
+				tm.Stop()
+			case 1:
+				if interval {
+					ClearInterval(tm)
+				} else {
+					ClearTimeout(tm)
+				}
+			case 2:
+				if !interval {
+					tm.Refresh()
+				}
+			}
+			returned++
+		}
+		if interval {
+			tm = SetInterval(cb, time.Duration(p))
+		} else {
+			tm = SetTimeout(cb, time.Duration(p))
+		}
+		verif.SleepUntil(p + p + p + p + p)
+		verif.Settle()
+		switch {
+		case interval && act != 2:
+			verif.Assert(len(calls) == k && returned == 1, "an interval cancelled from its own callback runs no more, and the cancellation returns")
+			verif.Assert(verif.Goroutines() == 0, "no goroutine left behind")
+		case interval:
+			verif.Assert(len(calls) == 5, "an untouched interval runs once per period")
+		case act == 2 && k == 1:
+			verif.Assert(len(calls) == 2 && calls[1] == p+p && returned == 1, "a timeout refreshed from its own callback runs once more, one period later")
+			verif.Assert(verif.Goroutines() == 0, "no goroutine left behind")
+		default:
+			verif.Assert(len(calls) == 1 && calls[0] == p, "a timeout runs once")
+			if k == 1 {
+				verif.Assert(returned == 1, "cancelling a timeout from its own callback returns")
+			}
+			verif.Assert(verif.Goroutines() == 0, "no goroutine left behind")
+		}
+		tm.Stop()
+		verif.Settle()
+		verif.Assert(verif.Goroutines() == 0, "no goroutine left after the final cancellation")
+	})
+}
+
+// VerifH_C19_cancel_during_callback: another goroutine cancels an interval while one of its
+// callbacks is still running (a slow callback): the cancellation returns promptly, without
+// waiting for the callback, and no further callback starts.
+func VerifH_C19_cancel_during_callback() {
+	verif.RunTimed(func() {
+		verif.RealTimers()
+		p := verif.Int64()
+		verif.Assume(p >= 2 && p <= 1<<40)
+		interval := verif.Bool()
+		release := make(chan struct{})
+		started, finished := 0, 0
+		cb := func() {
+			started++
+			<-release // a slow callback
+			finished++
+		}
+		var tm *Timer
+		if interval {
+			tm = SetInterval(cb, time.Duration(p))
+		} else {
+			tm = SetTimeout(cb, time.Duration(p))
+		}
+		verif.SleepUntil(p)
+		verif.Settle()
+		verif.Assert(started == 1 && finished == 0, "the callback is running")
+		tm.Stop() // must not wait for the running callback
+		verif.Assert(finished == 0, "cancellation returned while the callback was still running")
+		verif.SleepUntil(p + p + p)
+		verif.Settle()
+		verif.Assert(started == 1, "no further callback starts after the cancellation")
+		close(release)
+		verif.Settle()
+		verif.Assert(finished == 1 && verif.Goroutines() == 0, "the running callback finishes and nothing is left behind")
+	})
+}
